@@ -1,23 +1,20 @@
 (* C19 -- sensors_battery() *)
 From PV Require Import C19.Lib.
 
-Lemma multi_alt a : kalt_ok a = true ->
-  multi_bcat [to_fres k_dec (a_first a); to_fres k_dec (a_second a)] = option_map MI (spec_alt a).
+Lemma multi_alt a : salt_ok a = true ->
+  multi_bcat [to_fres k_snum (s_first a); to_fres k_snum (s_second a)] = option_map MI (spec_salt a).
 Proof.
-  unfold kalt_ok, dec_ok, spec_alt. intros H. apply andb_true_iff in H as [H1 H2].
-  destruct (a_first a) as [ds| |]; cbn [kf_ok to_fres multi_bcat] in *.
-  - unfold k_dec. now rewrite parse_int_nl.
-  - destruct (a_second a) as [es| |]; cbn [kf_ok to_fres multi_bcat option_map] in *; auto.
-    unfold k_dec. now rewrite parse_int_nl.
-  - destruct (a_second a) as [es| |]; cbn [kf_ok to_fres multi_bcat option_map] in *; auto.
-    unfold k_dec. now rewrite parse_int_nl.
+  unfold salt_ok, spec_salt. intros H. apply andb_true_iff in H as [H1 H2].
+  destruct (s_first a) as [x| |]; cbn [kf_ok to_fres multi_bcat] in *.
+  - now rewrite parse_int_snum.
+  - destruct (s_second a) as [y| |]; cbn [kf_ok to_fres multi_bcat option_map] in *; auto. now rewrite parse_int_snum.
+  - destruct (s_second a) as [y| |]; cbn [kf_ok to_fres multi_bcat option_map] in *; auto. now rewrite parse_int_snum.
 Qed.
 
-Lemma multi_one f : dec_ok f = true ->
-  multi_bcat [to_fres k_dec f] = match f with Present ds => Some (MI (dec_val ds)) | _ => None end.
+Lemma multi_one f : kf_ok snum_ok f = true ->
+  multi_bcat [to_fres k_snum f] = match f with Present x => Some (MI (snum_val x)) | _ => None end.
 Proof.
-  unfold dec_ok. destruct f as [ds| |]; cbn [kf_ok to_fres multi_bcat]; auto.
-  intros H. unfold k_dec. now rewrite parse_int_nl.
+  destruct f as [x| |]; cbn [kf_ok to_fres multi_bcat]; auto. intros H. now rewrite parse_int_snum.
 Qed.
 
 Lemma percent_spec full now cap : dec_ok cap = true ->
@@ -46,79 +43,98 @@ Proof.
   destruct ac0 as [[|]| |], ac as [[|]| |], st as [[| | | |]| |]; vm_compute; reflexivity.
 Qed.
 
-Lemma spec_alt_nonneg a z : kalt_ok a = true -> spec_alt a = Some z -> 0 <= z.
+Lemma quot_abs a w : w <> 0 -> 0 < w \/ Z.quot a (Z.abs w) = 0 -> Z.quot a w = Z.quot a (Z.abs w).
 Proof.
-  unfold kalt_ok, dec_ok, spec_alt. intros H. apply andb_true_iff in H as [H1 H2].
-  assert (D : forall ds, is_dec ds = true -> 0 <= dec_val ds).
-  { intros ds Hd. apply dec_val_nonneg. destruct ds; [discriminate|exact Hd]. }
-  destruct (a_first a) as [ds| |]; cbn [kf_ok] in *.
-  - intros E. inversion E. now apply D.
-  - destruct (a_second a) as [es| |]; cbn [kf_ok] in *; try discriminate. intros E. inversion E. now apply D.
-  - destruct (a_second a) as [es| |]; cbn [kf_ok] in *; try discriminate. intros E. inversion E. now apply D.
+  intros Hne [H|H].
+  - now rewrite Z.abs_eq by lia.
+  - destruct (Z.lt_ge_cases 0 w) as [Hp|Hn]; [now rewrite Z.abs_eq by lia|].
+    rewrite Z.abs_neq in * by lia. rewrite Z.quot_opp_r in * by lia. lia.
+Qed.
+
+Lemma tte_part tte : match tte with Some (MI t) => t < 0 | Some (MB _) => False | None => True end ->
+  match tte with
+  | Some (MI t) => Val (if t * 60 <? 0 then POWER_TIME_UNKNOWN else t * 60)
+  | Some (MB b) => do s <- py_int (concat (repeat b 60)); Val (if s <? 0 then POWER_TIME_UNKNOWN else s)
+  | None => Val POWER_TIME_UNKNOWN
+  end = Val POWER_TIME_UNKNOWN.
+Proof.
+  destruct tte as [[t|b]|]; intros H; [|contradiction|reflexivity].
+  assert (t * 60 <? 0 = true) as -> by lia. reflexivity.
+Qed.
+
+(* seconds: the code divides by the SIGNED power; it agrees with now*3600/|power| when power > 0 or the answer is 0 *)
+Lemma secs_body now power tte :
+  (forall n w, now = Some n -> power = Some w -> 0 < w \/ Z.quot (n * 3600) (Z.abs w) = 0) ->
+  (match tte with Some (MI t) => t < 0 | Some (MB _) => False | None => True end
+   \/ (exists n w, now = Some n /\ power = Some w)) ->
+  match option_map MI now, option_map MI power with
+  | Some n, Some p =>
+    match n, p with
+    | MI n, MI p => Val (if p =? 0 then POWER_TIME_UNKNOWN else Z.quot (n * 3600) p)
+    | _, _ => Exc TypeError
+    end
+  | _, _ =>
+    match tte with
+    | Some (MI t) => Val (if t * 60 <? 0 then POWER_TIME_UNKNOWN else t * 60)
+    | Some (MB b) => do s <- py_int (concat (repeat b 60)); Val (if s <? 0 then POWER_TIME_UNKNOWN else s)
+    | None => Val POWER_TIME_UNKNOWN
+    end
+  end = Val (match now, power with
+             | Some n, Some w => if w =? 0 then POWER_TIME_UNKNOWN else Z.quot (n * 3600) (Z.abs w)
+             | _, _ => POWER_TIME_UNKNOWN
+             end).
+Proof.
+  intros Hw Ht. destruct now as [n|], power as [w|]; cbn [option_map].
+  - destruct (Z.eqb_spec w 0) as [->|Hne]; [reflexivity|].
+    now rewrite (quot_abs _ w Hne (Hw n w eq_refl eq_refl)).
+  - destruct Ht as [Ht|[n' [w' [_ E]]]]; [now apply tte_part|discriminate].
+  - destruct Ht as [Ht|[n' [w' [E _]]]]; [now apply tte_part|discriminate].
+  - destruct Ht as [Ht|[n' [w' [E _]]]]; [now apply tte_part|discriminate].
 Qed.
 
 Lemma secs_spec plugged now power tte :
-  (forall n, now = Some n -> 0 <= n) -> (forall w, power = Some w -> 0 <= w) ->
-  tte = None \/ (exists n w, now = Some n /\ power = Some w) ->
+  (plugged = Some true \/
+   forall n w, now = Some n -> power = Some w -> 0 < w \/ Z.quot (n * 3600) (Z.abs w) = 0) ->
+  (match tte with Some (MI t) => t < 0 | Some (MB _) => False | None => True end
+   \/ (exists n w, now = Some n /\ power = Some w)) ->
   secs_of plugged (option_map MI now) (option_map MI power) tte =
   Val (match plugged with
        | Some true => POWER_TIME_UNLIMITED
        | _ => match now, power with
-              | Some n, Some w => if w =? 0 then POWER_TIME_UNKNOWN else (n * 3600) / w
+              | Some n, Some w => if w =? 0 then POWER_TIME_UNKNOWN else Z.quot (n * 3600) (Z.abs w)
               | _, _ => POWER_TIME_UNKNOWN
               end
        end).
 Proof.
-  intros Hn Hw Ht. unfold secs_of.
-  assert (G : match option_map MI now, option_map MI power with
-              | Some n, Some p =>
-                match n, p with
-                | MI n, MI p => Val (if p =? 0 then POWER_TIME_UNKNOWN else Z.quot (n * 3600) p)
-                | _, _ => Exc TypeError
-                end
-              | _, _ =>
-                match tte with
-                | Some (MI t) => Val (if t * 60 <? 0 then POWER_TIME_UNKNOWN else t * 60)
-                | Some (MB b) => do s <- py_int (concat (repeat b 60));
-                                 Val (if s <? 0 then POWER_TIME_UNKNOWN else s)
-                | None => Val POWER_TIME_UNKNOWN
-                end
-              end = Val (match now, power with
-                         | Some n, Some w => if w =? 0 then POWER_TIME_UNKNOWN else (n * 3600) / w
-                         | _, _ => POWER_TIME_UNKNOWN
-                         end)).
-  { destruct now as [n|], power as [w|]; cbn [option_map].
-    - destruct (Z.eqb_spec w 0) as [->|Hne]; [reflexivity|].
-      specialize (Hn n eq_refl). specialize (Hw w eq_refl).
-      rewrite Z.quot_div_nonneg by lia. reflexivity.
-    - destruct Ht as [->|[n' [w' [_ E]]]]; [reflexivity|discriminate].
-    - destruct Ht as [->|[n' [w' [E _]]]]; [reflexivity|discriminate].
-    - destruct Ht as [->|[n' [w' [E _]]]]; [reflexivity|discriminate]. }
-  destruct plugged as [[|]|]; auto.
+  intros Hw Ht. unfold secs_of. destruct plugged as [[|]|]; [reflexivity| |];
+    (destruct Hw as [Hw|Hw]; [discriminate|]); now apply secs_body.
 Qed.
 
-(* one battery: percent = 100*now/full (or the kernel's capacity), seconds left, plugged *)
-Theorem battery_values b ac0 ac : kbat_ok b = true -> tte_unused b = true ->
+(* one battery, signed attribute values: percent = 100*now/full (or the kernel's capacity), seconds left, plugged *)
+Theorem battery_values b ac0 ac : kbat_ok b = true -> tte_unused b = true -> neg_power_matters b ac0 ac = false ->
   battery_of (bat_files b) (to_fres k_online ac0) (to_fres k_online ac) = Val (spec_battery b ac0 ac).
 Proof.
-  intros Hok Ht. unfold kbat_ok in Hok.
+  intros Hok Ht Hneg. unfold kbat_ok in Hok.
   apply andb_true_iff in Hok as [Hok Hcap]. apply andb_true_iff in Hok as [Hok Htte].
   apply andb_true_iff in Hok as [Hok Hfull]. apply andb_true_iff in Hok as [Hnow Hpow].
   unfold battery_of, spec_battery.
   cbn [bat_files b_energy_now b_charge_now b_power_now b_current_now b_energy_full b_charge_full
        b_time_to_empty b_capacity b_status].
   rewrite !multi_alt by assumption. rewrite percent_spec by exact Hcap. cbn [obind].
-  destruct (match spec_alt (kb_full b), spec_alt (kb_now b) with
+  destruct (match spec_salt (kb_full b), spec_salt (kb_now b) with
             | Some f, Some n => Some (if f =? 0 then 0%Q else (100 * inject_Z n / inject_Z f)%Q)
             | _, _ => match kb_capacity b with Present ds => Some (inject_Z (dec_val ds)) | _ => None end
             end) as [p|]; [|reflexivity].
-  rewrite plugged_spec. rewrite secs_spec; [reflexivity| | |].
-  - intros n E. now apply (spec_alt_nonneg (kb_now b)).
-  - intros w E. now apply (spec_alt_nonneg (kb_power b)).
+  rewrite plugged_spec. rewrite secs_spec; [reflexivity| |].
+  - unfold neg_power_matters in Hneg.
+    destruct (spec_plugged ac0 ac (kb_status b)) as [[|]|]; [now left| |]; right; intros n w En Ew;
+      rewrite En, Ew in Hneg; apply andb_false_iff in Hneg as [H|H];
+      try (right; apply negb_false_iff in H; lia);
+      (destruct (Z.eqb_spec w 0) as [->|Hne]; [right; now apply Z.quot_0_r_ext|left; lia]).
   - unfold tte_unused in Ht. apply orb_true_iff in Ht as [Ht|Ht].
-    + left. rewrite multi_one by exact Htte. destruct (kb_tte b); [discriminate|reflexivity|reflexivity].
-    + right. destruct (spec_alt (kb_now b)) as [n|]; [|discriminate].
-      destruct (spec_alt (kb_power b)) as [w|]; [|discriminate]. eauto.
+    + left. rewrite multi_one by exact Htte. destruct (kb_tte b) as [x| |]; [lia|exact I|exact I].
+    + right. destruct (spec_salt (kb_now b)) as [n|]; [|discriminate].
+      destruct (spec_salt (kb_power b)) as [w|]; [|discriminate]. eauto.
 Qed.
 
 (* which entry: only battery-named entries count; none -> None *)
@@ -163,7 +179,7 @@ Theorem battery_selection g l ac0 ac : supply_ok l = true ->
   | x :: r =>
     let b := snd (min_entry x r) in
     In (min_entry x r) (batteries l) /\
-    (tte_unused b = true ->
+    (tte_unused b = true -> neg_power_matters b ac0 ac = false ->
      sensors_battery g (Some (supply_listing l)) (to_fres k_online ac0) (to_fres k_online ac)
      = Val (spec_battery b ac0 ac))
   end.
@@ -171,8 +187,8 @@ Proof.
   intros Hok. unfold sensors_battery. rewrite filter_listing by exact Hok.
   pose proof (batteries_ok l Hok) as Hb.
   destruct (batteries l) as [|x r]; [reflexivity|]. cbn zeta. split; [apply min_entry_in|].
-  intros Ht. cbn [map]. rewrite (min_entry_map bat_files x r). cbn [snd].
-  apply battery_values; [|exact Ht].
+  intros Ht Hneg. cbn [map]. rewrite (min_entry_map bat_files x r). cbn [snd].
+  apply battery_values; [|exact Ht|exact Hneg].
   rewrite forallb_forall in Hb. apply (Hb (min_entry x r)). apply min_entry_in.
 Qed.
 
@@ -225,11 +241,30 @@ Theorem battery_nodir_refuted :
   sensors_battery false None FAbsent FAbsent = Exc OSError /\ sensors_battery true None FAbsent FAbsent = Val None.
 Proof. split; reflexivity. Qed.
 
+Definition sn (g : sgn) (ds : bytes) : snum := {| sn_lead := []; sn_sign := g; sn_digits := ds; sn_trail := [] |}.
+
+(* finding: a fuel gauge that reports the discharge current as a negative number: 3 Ah left at -1 A is three
+   hours, the code answers -10800 *)
+Definition neg_current_witness : kbat :=
+  {| kb_now := {| s_first := Absent; s_second := Present (sn SgNone (bs "3000000")) |};
+     kb_power := {| s_first := Absent; s_second := Present (sn SgMinus (bs "1000000")) |};
+     kb_full := {| s_first := Absent; s_second := Present (sn SgNone (bs "4000000")) |};
+     kb_tte := Present (sn SgMinus (bs "1")); kb_capacity := Present (bs "75"); kb_status := Present StDischarging |}.
+Theorem battery_negative_power_refuted :
+  exists b r r', kbat_ok b = true /\ tte_unused b = true /\
+    battery_of (bat_files b) FAbsent FAbsent = Val (Some r) /\ bt_secsleft r = -10800 /\
+    spec_battery b Absent Absent = Some r' /\ bt_secsleft r' = 10800 /\ bt_percent r = bt_percent r'.
+Proof.
+  exists neg_current_witness. eexists. eexists. split; [reflexivity|]. split; [reflexivity|].
+  split; [vm_compute; reflexivity|]. split; [reflexivity|]. split; [vm_compute; reflexivity|]. split; reflexivity.
+Qed.
+
 Example battery_example :
-  let b := {| kb_now := {| a_first := Absent; a_second := Present (bs "3000000") |};
-              kb_power := {| a_first := Present (bs "1000000"); a_second := Absent |};
-              kb_full := {| a_first := Absent; a_second := Present (bs "4000000") |};
-              kb_tte := Absent; kb_capacity := Present (bs "75"); kb_status := Present StDischarging |} in
-  kbat_ok b = true /\ tte_unused b = true /\
+  let b := {| kb_now := {| s_first := Absent; s_second := Present (sn SgNone (bs "3000000")) |};
+              kb_power := {| s_first := Present {| sn_lead := [32]; sn_sign := SgPlus; sn_digits := bs "1000000"; sn_trail := [32] |};
+                             s_second := Absent |};
+              kb_full := {| s_first := Absent; s_second := Present (sn SgNone (bs "4000000")) |};
+              kb_tte := Present (sn SgMinus (bs "1")); kb_capacity := Present (bs "75"); kb_status := Present StDischarging |} in
+  kbat_ok b = true /\ tte_unused b = true /\ neg_power_matters b Absent Absent = false /\
   spec_battery b Absent Absent = Some {| bt_percent := (100 * 3000000 / 4000000)%Q; bt_secsleft := 10800; bt_plugged := Some false |}.
 Proof. cbv zeta. repeat split. Qed.
